@@ -18,7 +18,9 @@ var checks = map[string]func(string) int{
 	"C05": e1.RunC05,
 	"C06": e2.RunC06,
 	"C07": e2.RunC07,
+	"C09": e2.RunC09,
 	"C13": e1.RunC13,
+	"C17": e2.RunC17,
 	"C14": e1.RunC14,
 	"C15": e1.RunC15,
 }
